@@ -8,6 +8,8 @@ from fractions import Fraction
 
 import numpy as np
 
+from pwlib.share import shcopy
+
 from pwlib import gens
 from pwlib.canon import counted, counted_ints, flat
 from pwlib.engine import Case
@@ -103,6 +105,13 @@ def points_for(spec, plane):
                 p = np.array(gens.lat(rng, 3, rng.choice([1, 2])))
                 ax = int(np.flatnonzero(n)[0])
                 p[ax] = ref[ax]
+                if rng.random() < 0.4:
+                    # ... or off it by the least the arithmetic can tell (the subtraction is exact, the side is determined)
+                    sgn = rng.choice([-1.0, 1.0])
+                    if ref[ax] == 0.0:
+                        p[ax] = sgn * rng.choice([5e-324, 1e-300, 1e-17, 2.0 ** -60, 2.0 ** -53, 2.2e-16, 1e-12])
+                    else:
+                        p[ax] = np.nextafter(ref[ax], sgn * np.inf)
                 pts.append(p.tolist())
             else:
                 pts.append(gens.lat(rng, 4, rng.choice([1, 2, 4])))
@@ -138,12 +147,12 @@ def make(spec):
     margin = Fraction(1e-7) * Fraction(scale)
     # (an exactly-on-plane point is kept only where the float arithmetic is exact: lattice point, axis-aligned normal)
     axis_aligned = sorted(abs(float(x)) for x in n) == [0.0, 0.0, 1.0]
-    dpts = [p for p in pts if (exact_sd(plane, p) == 0 and spec["stream"] == "lattice" and axis_aligned)
-            or abs(exact_sd(plane, p)) > margin]
+    # (likewise a point off the plane by less than the margin: there the subtraction and the one non-zero product are exact)
+    dpts = [p for p in pts if (spec["stream"] == "lattice" and axis_aligned) or abs(exact_sd(plane, p)) > margin]
     single = spec["single"] and len(pts) == 1
-    P = np.array(pts, dtype=np.float64).reshape(-1, 3)
-    DP = np.array(dpts, dtype=np.float64).reshape(-1, 3)
-    arg = (lambda A: A[0].copy()) if single else (lambda A: A.copy())
+    P = np.array(np.reshape(pts, (-1, 3)), dtype=np.float64)
+    DP = np.array(np.reshape(dpts, (-1, 3)), dtype=np.float64)
+    arg = (lambda A: shcopy(A[0])) if single else (lambda A: shcopy(A))
     trivial = len(pts) == 0
     kl = "%s/%s/%s" % (spec["stream"], spec["plane"]["ctor"], "single" if single else ("k0" if trivial else "stack"))
 
@@ -177,18 +186,18 @@ def make(spec):
     # discrete: only the exact model is authoritative (Float re-execution may round differently; it is still compared
     # because the generators keep a margin)
     dsingle = single and len(dpts) == 1
-    darg = (lambda A: A[0].copy()) if dsingle else (lambda A: A.copy())
+    darg = (lambda A: shcopy(A[0])) if dsingle else (lambda A: shcopy(A))
     add("plane.sign", pl("plane.sign").vecs(DP), lambda: [len(DP)] + [int(x) for x in np.atleast_1d(plane.sign(darg(DP)))])
     if not dsingle:  # points_in_front on a single point is outside the documented forms (see C20)
         for inv in (False, True):
             add("plane.front", Line("plane.front").b(inv).vec(ref).vec(n).vecs(DP),
-                lambda inv=inv: counted_ints(plane.points_in_front(DP.copy(), inverted=inv, ret_indices=True)))
+                lambda inv=inv: counted_ints(plane.points_in_front(shcopy(DP), inverted=inv, ret_indices=True)))
             add("plane.onfront", Line("plane.onfront").b(inv).vec(ref).vec(n).vecs(DP),
-                lambda inv=inv: counted_ints(plane.points_on_or_in_front(DP.copy(), inverted=inv, ret_indices=True)))
+                lambda inv=inv: counted_ints(plane.points_on_or_in_front(shcopy(DP), inverted=inv, ret_indices=True)))
             add("plane.frontpts", Line("plane.frontpts").b(inv).vec(ref).vec(n).vecs(DP),
-                lambda inv=inv: counted(plane.points_in_front(DP.copy(), inverted=inv)))
+                lambda inv=inv: counted(plane.points_in_front(shcopy(DP), inverted=inv)))
             add("plane.onfrontpts", Line("plane.onfrontpts").b(inv).vec(ref).vec(n).vecs(DP),
-                lambda inv=inv: counted(plane.points_on_or_in_front(DP.copy(), inverted=inv)))
+                lambda inv=inv: counted(plane.points_on_or_in_front(shcopy(DP), inverted=inv)))
     cases[0].oracle = lambda _r: oracle_plane(plane, P, DP, scale)
     return cases
 
@@ -209,13 +218,13 @@ def make_fn(spec):
     E = np.array(eqs, dtype=np.float64)
     single = spec["single"] and k == 1
     scale = max(gens.maxabs(P) * max(gens.maxabs(E[:, :3]), 1.0) ** 2, gens.maxabs(E), 1e-300)
-    pa = (lambda: P[0].copy()) if single else (lambda: P.copy())
+    pa = (lambda: shcopy(P[0])) if single else (lambda: shcopy(P))
     if spec["per_point"] and not single:
-        ea = lambda: E.copy()
+        ea = lambda: shcopy(E)
         ops = ("fn.sd", "fn.project", "fn.mirror")
         mk = lambda op: Line(op).vecs(P).vecs(E)
     else:
-        ea = lambda: E[0].copy()
+        ea = lambda: shcopy(E[0])
         ops = ("fn1.sd", "fn1.project", "fn1.mirror")
         mk = lambda op: Line(op).vec(E[0]).vecs(P)
     kl = "%s/%s/%s" % (spec["stream"], "per-point" if spec["per_point"] and not single else "one-eq", "single" if single else "stack")
@@ -245,20 +254,20 @@ def oracle_plane(plane, P, DP, scale):
     nn = sum(x * x for x in n)
     tol = Fraction(1e-9) * Fraction(scale)
     if len(P):
-        sd = np.atleast_1d(plane.signed_distance(P.copy()))
-        proj = plane.project_point(P.copy())
-        mir = plane.mirror_point(P.copy())
+        sd = np.atleast_1d(plane.signed_distance(shcopy(P)))
+        proj = plane.project_point(shcopy(P))
+        mir = plane.mirror_point(shcopy(P))
         sd_proj = np.atleast_1d(plane.signed_distance(proj))
         sd_mir = np.atleast_1d(plane.signed_distance(mir))
         proj2 = plane.project_point(proj)
         mir2 = plane.mirror_point(mir)
         fl = plane.flipped()
-        sd_fl = np.atleast_1d(fl.signed_distance(P.copy()))
+        sd_fl = np.atleast_1d(fl.signed_distance(shcopy(P)))
         eq = plane.equation
-        sd_fn = np.atleast_1d(signed_distance_to_plane(P.copy(), eq))
-        proj_fn = project_point_to_plane(P.copy(), eq)
-        mir_fn = mirror_point_across_plane(P.copy(), eq)
-        dist = np.atleast_1d(plane.distance(P.copy()))
+        sd_fn = np.atleast_1d(signed_distance_to_plane(shcopy(P), eq))
+        proj_fn = project_point_to_plane(shcopy(P), eq)
+        mir_fn = mirror_point_across_plane(shcopy(P), eq)
+        dist = np.atleast_1d(plane.distance(shcopy(P)))
         for i, p in enumerate(P):
             e = exact_sd(plane, p)
             if not close(sd[i], e, tol):
@@ -301,17 +310,17 @@ def oracle_plane(plane, P, DP, scale):
     # classification and partitions on the determined points
     if len(DP) > 1 or (len(DP) == 1):
         D2 = DP.copy().reshape(-1, 3)
-        sg = np.atleast_1d(plane.sign(D2.copy()))
+        sg = np.atleast_1d(plane.sign(shcopy(D2)))
         ex = [exact_sd(plane, p) for p in D2]
         for i, e in enumerate(ex):
             want = (e > 0) - (e < 0)
             if int(sg[i]) != want:
                 out.append(("sign/def", "sign(%s)=%s but (p-ref).n=%r" % (D2[i].tolist(), sg[i], float(e))))
         k = len(D2)
-        fr = list(plane.points_in_front(D2.copy(), ret_indices=True))
-        ofi = list(plane.points_on_or_in_front(D2.copy(), inverted=True, ret_indices=True))
-        of = list(plane.points_on_or_in_front(D2.copy(), ret_indices=True))
-        fi = list(plane.points_in_front(D2.copy(), inverted=True, ret_indices=True))
+        fr = list(plane.points_in_front(shcopy(D2), ret_indices=True))
+        ofi = list(plane.points_on_or_in_front(shcopy(D2), inverted=True, ret_indices=True))
+        of = list(plane.points_on_or_in_front(shcopy(D2), ret_indices=True))
+        fi = list(plane.points_in_front(shcopy(D2), inverted=True, ret_indices=True))
         if sorted(fr + ofi) != list(range(k)):
             out.append(("partition/front", "in_front + inverted on_or_in_front is not a partition: %s %s" % (fr, ofi)))
         if sorted(of + fi) != list(range(k)):
@@ -326,7 +335,7 @@ def oracle_plane(plane, P, DP, scale):
             out.append(("onfront-inverted/def", "inverted points_on_or_in_front indices %s" % (ofi,)))
         for (f, inv, idx) in ((plane.points_in_front, False, fr), (plane.points_in_front, True, fi),
                               (plane.points_on_or_in_front, False, of), (plane.points_on_or_in_front, True, ofi)):
-            got = f(D2.copy(), inverted=inv)
+            got = f(shcopy(D2), inverted=inv)
             if got.shape != (len(idx), 3) or not np.array_equal(got, D2[idx]):
                 out.append(("points/indices-agree", "points and indices forms disagree (%s inverted=%s)" % (f.__name__, inv)))
     # dedupe by key
@@ -353,11 +362,11 @@ def oracle_fn(P, E, single, per_point, scale):
         if not close(sd[i], ex, tol):
             out.append(("fn.signed_distance/def", "signed_distance_to_plane(%s, %s)=%r expected %r" % (p.tolist(), e.tolist(), float(sd[i]), float(ex))))
         # row-by-row = single call
-        s1 = signed_distance_to_plane(p.copy(), e.copy())
+        s1 = signed_distance_to_plane(shcopy(p), shcopy(e))
         if not close(s1, sd[i], tol):
             out.append(("fn.signed_distance/stack-is-map", "stacked result row %d differs from the single call" % i))
-        p1 = project_point_to_plane(p.copy(), e.copy())
-        m1 = mirror_point_across_plane(p.copy(), e.copy())
+        p1 = project_point_to_plane(shcopy(p), shcopy(e))
+        m1 = mirror_point_across_plane(shcopy(p), shcopy(e))
         for j in range(3):
             # general (non-unit normal) law: p + f*d*n
             if not close(pr[i][j], Fraction(float(p[j])) - ex * n[j], tol * max(1, nn)):
